@@ -367,3 +367,26 @@ PROPS["C07"] = {
         + [dict(o, tier="thorough", timeout=1200) for o in _c07(["c07_parse_rtpfb_16"], RM, "parse_rtcp_rtpfb", "parse_rtcp_rtpfb")]
     ),
 }
+
+# =============================================================================== C01
+SCM = "transports::sctp"
+PROPS["C01"] = {
+    "level": "proof",
+    "explanation": "KERNEL ONLY: the per-stream resequencer InboundStream::{enqueue,drain_ready} against a map view (Verus over the extracted text, vstd BTreeMap specification) and the serial-number comparisons tsn_gt/ssn_gt over their full domain (Kani). TSN de-duplication, reassembly, SACK/retransmission, INIT handling and every liveness clause of C01 are statements of async methods and are NOT decided.",
+    "trusted_base": ["vstd's specification of std::collections::BTreeMap (std_specs::btree): insert/remove/len against Map<K,V>",
+                     "Verus extraction: bytes::Bytes re-declared as an opaque struct (InboundStream only moves messages); one debug! statement dropped",
+                     "assumed precondition of enqueue: wf (next_ssn not buffered) — re-established by every enqueue/drain_ready; callers drain after advance_ssn_to",
+                     "assumed: an SSN below next_ssn is never enqueued (TSN de-duplication upstream, async code, not verified)"],
+    "kani": [
+        K("tsn_gt == RFC 1982 serial comparison", "c01_tsn_gt_serial_spec", "quick", "proof", ["tsn_gt"],
+          "a > b <=> 0 < (a-b) mod 2^32 < 2^31 for every pair; irreflexive, asymmetric, successor is greater", module=SCM),
+        K("ssn_gt == RFC 1982 serial comparison", "c01_ssn_gt_serial_spec", "quick", "proof", ["ssn_gt"],
+          "a > b <=> 0 < (a-b) mod 2^16 < 2^15 for every pair", module=SCM),
+        K("canary: ssn_gt is plain >", "canary_ssn_gt_is_plain_greater", "quick", "canary", ["ssn_gt"], "false claim, must FAIL", expect="fail", module=SCM),
+    ],
+    "verus": [
+        V("InboundStream ordered release (Verus)", "sctp_inbound", "quick", "proof", ["InboundStream::enqueue", "InboundStream::drain_ready"],
+          "drain_ready releases exactly the maximal run next_ssn, next_ssn+1, .. (mod 2^16) in that order, removes exactly those keys, advances next_ssn by the count and re-establishes wf; enqueue == insert then drain (the accepted message is never lost; the early return under the 128-entry cap is unreachable under wf); termination for all 65536 keys",
+          min_verified=5),
+    ],
+}
